@@ -10,6 +10,8 @@ normalised text with the text the hand transcription was made from.
 """
 import os
 import re
+import sys
+sys.path.insert(0, os.path.dirname(os.path.abspath(__file__)))
 
 WANTED = {"kThumb32_ADR": "T32_ADR", "kThumb32_BLX": "T32_BLX", "kThumb32_B": "T32_B", "kThumb32_BCond": "T32_BCond",
           "kAArch32_U23_0To3At0_4To7At8": "A32_U23_0To3At0_4To7At8", "kAArch32_1To24At0_0At24": "A32_1To24At0_0At24",
@@ -175,7 +177,212 @@ def extract(repo):
     return layouts, text_changes
 
 
-def render(layouts):
+ENUM_NAMES = {"kSignedOffset": "SignedOffset", "kUnsignedOffset": "UnsignedOffset", "kAArch64_ADR": "A64_ADR", "kAArch64_ADRP": "A64_ADRP",
+              "kThumb32_ADR": "T32_ADR", "kThumb32_BLX": "T32_BLX", "kThumb32_B": "T32_B", "kThumb32_BCond": "T32_BCond",
+              "kAArch32_ADR": "A32_ADR", "kAArch32_U23_SignedOffset": "A32_U23",
+              "kAArch32_U23_0To3At0_4To7At8": "A32_U23_0To3At0_4To7At8", "kAArch32_1To24At0_0At24": "A32_1To24At0_0At24"}
+
+
+def extract_fixup(repo):
+    """asmjit/core/fixup.h: enumerators of OffsetType in declaration order, and the types has_sign_bit() lists."""
+    src = re.sub(r"//[^\n]*", "", open(os.path.join(repo, "asmjit", "core", "fixup.h")).read())
+    m = re.search(r"enum class OffsetType\s*:\s*uint8_t\s*\{(.*?)\};", src, re.S)
+    if not m:
+        raise TranslatorError("enum class OffsetType not found in fixup.h")
+    order = []
+    for item in m.group(1).split(","):
+        item = item.strip()
+        if not item:
+            continue
+        mm = re.fullmatch(r"(k\w+)(?:\s*=\s*(\w+))?", item)
+        if not mm:
+            raise TranslatorError("unrecognised enumerator %r" % item)
+        if mm.group(1) == "kMaxValue":
+            if mm.group(2) != order[-1]:
+                raise TranslatorError("kMaxValue is %s, last enumerator is %s" % (mm.group(2), order[-1]))
+            continue
+        if mm.group(2) is not None:
+            raise TranslatorError("enumerator %s has an explicit value" % mm.group(1))
+        order.append(mm.group(1))
+    m = re.search(r"bool has_sign_bit\(\) const noexcept \{\s*return (.*?);\s*\}", src, re.S)
+    if not m:
+        raise TranslatorError("has_sign_bit() not found in fixup.h")
+    signs = []
+    for part in m.group(1).split("||"):
+        mm = re.fullmatch(r"_type == OffsetType::(k\w+)", part.strip())
+        if not mm:
+            raise TranslatorError("unrecognised has_sign_bit() term %r" % part.strip())
+        signs.append(mm.group(1))
+    for n in order + signs:
+        if n not in ENUM_NAMES:
+            raise TranslatorError("unknown OffsetType enumerator %s (the model has no constructor for it)" % n)
+    return order, signs
+
+
+def extract_armutils(repo):
+    """asmjit/arm/armutils.h: template arguments of the fp imm8 predicates / encoder, constants of is_add_sub_imm and is_byte_mask_imm."""
+    src = re.sub(r"//[^\n]*", "", open(os.path.join(repo, "asmjit", "arm", "armutils.h")).read())
+    fp = []
+    for (n, rx) in ((16, r"bool is_fp16_imm8\(uint32_t val\) noexcept \{ return is_fp_imm8_generic<uint32_t, (\d+), (\d+), (\d+)>\(val\); \}"),
+                    (32, r"bool is_fp32_imm8\(uint32_t val\) noexcept \{ return is_fp_imm8_generic<uint32_t, (\d+), (\d+), (\d+)>\(val\); \}"),
+                    (64, r"bool is_fp64_imm8\(uint64_t val\) noexcept \{ return is_fp_imm8_generic<uint64_t, (\d+), (\d+), (\d+)>\(val\); \}"),
+                    (64, r"uint32_t encode_fp64_to_imm8\(uint64_t val\) noexcept \{ return encode_fp_to_imm8_generic<uint64_t, (\d+), (\d+), (\d+)>\(val\); \}")):
+        m = re.search(rx, src)
+        if not m:
+            raise TranslatorError("armutils.h: fp%d imm8 definition not of the expected shape" % n)
+        fp.append((n, int(m.group(1)), int(m.group(2)), int(m.group(3))))
+    m = re.search(r"bool is_add_sub_imm\(uint64_t imm\) noexcept \{\s*return imm <= (0x[0-9A-Fa-f]+)u \|\| \(imm & ~uint64_t\((0x[0-9A-Fa-f]+)u << (\d+)\)\) == 0;\s*\}", src)
+    if not m or int(m.group(1), 16) != int(m.group(2), 16):
+        raise TranslatorError("armutils.h: is_add_sub_imm not of the expected shape")
+    m2 = re.search(r"constexpr T kMask = T\((0x[0-9A-Fa-f]+) & Support::bit_ones<T>\);", src)
+    if not m2:
+        raise TranslatorError("armutils.h: is_byte_mask_imm mask not found")
+    return fp, [int(m.group(1), 16), int(m.group(3)), int(m2.group(1), 16)]
+
+
+def extract_used_formats(repo):
+    """Every OffsetFormat the backends build: all call sites of reset_to_simple_value / reset_to_imm_value in asmjit/ (source text).
+    Literal arguments are taken as they are; the three non-literal ones are expanded over the domain the surrounding code
+    guarantees (checked to be present as text): rel_size in {1,4}, data_size in {1,2,4,8}, op_data.offset_type in {ADR, ADRP}
+    (ADRP with the `_imm_discard_lsb = 12` that follows the call)."""
+    out = set()
+    order = list(ENUM_NAMES)
+    for rel in ("asmjit/x86/x86assembler.cpp", "asmjit/arm/a64assembler.cpp", "asmjit/core/assembler.cpp"):
+        src = re.sub(r"//[^\n]*", "", open(os.path.join(repo, rel)).read())
+        for m in re.finditer(r"reset_to_(simple|imm)_value\(([^;]*?)\);", src):
+            args = [a.strip() for a in m.group(2).split(",")]
+            if m.group(1) == "simple":
+                if len(args) != 2:
+                    raise TranslatorError("reset_to_simple_value with %d arguments in %s" % (len(args), rel))
+                tys, sizes, rest = args[0], args[1], None
+            else:
+                if len(args) != 5:
+                    raise TranslatorError("reset_to_imm_value with %d arguments in %s" % (len(args), rel))
+                tys, sizes, rest = args[0], args[1], args[2:]
+            if tys.startswith("OffsetType::"):
+                types = [(tys[len("OffsetType::"):], None)]
+            elif tys == "op_data.offset_type":
+                tail = " ".join(src[m.end():m.end() + 200].split())
+                if not tail.startswith("if (inst_id == Inst::kIdAdrp) offset_format._imm_discard_lsb = 12;"):
+                    raise TranslatorError("ADR/ADRP call site in %s is not followed by the ADRP discard assignment" % rel)
+                types = [("kAArch64_ADR", None), ("kAArch64_ADRP", 12)]
+            else:
+                raise TranslatorError("unrecognised type argument %r in %s" % (tys, rel))
+            if re.fullmatch(r"\d+", sizes):
+                szs = [int(sizes)]
+            elif sizes == "rel_size":
+                if "ASMJIT_ASSERT(rel_size == 1 || rel_size == 4);" not in src:
+                    raise TranslatorError("rel_size is no longer asserted to be 1 or 4 in %s" % rel)
+                szs = [1, 4]
+            elif sizes == "data_size":
+                if "Support::is_power_of_2_up_to(data_size, 8u)" not in src:
+                    raise TranslatorError("data_size is no longer checked to be a power of two up to 8 in %s" % rel)
+                szs = [1, 2, 4, 8]
+            else:
+                raise TranslatorError("unrecognised size argument %r in %s" % (sizes, rel))
+            for (t, dl_override) in types:
+                if t not in ENUM_NAMES:
+                    raise TranslatorError("unknown OffsetType %s in %s" % (t, rel))
+                for vs in szs:
+                    if rest is None:
+                        out.add((order.index(t), vs, 8 * vs, 0, 0))
+                    else:
+                        if not all(re.fullmatch(r"\d+", a) for a in rest):
+                            raise TranslatorError("non-literal reset_to_imm_value arguments %r in %s" % (rest, rel))
+                        sh, bits, dl = int(rest[0]), int(rest[1]), int(rest[2])
+                        out.add((order.index(t), vs, bits, sh, dl if dl_override is None else dl_override))
+    return [(ENUM_NAMES[order[t]], vs, bits, sh, dl) for (t, vs, bits, sh, dl) in sorted(out)]
+
+
+def _bf_rule(text, names):
+    """One alias block (normalised text) -> (guards, immr, imms, imms_lt_size) as Coq text."""
+    ops = re.findall(r"uint64_t (\w+) = o\d\.as<Imm>\(\)\.value_as<uint64_t>\(\);", text)
+    if not ops or len(ops) > 2:
+        raise TranslatorError("%s: %d immediate operands" % (names, len(ops)))
+    env = {ops[0]: "BA"}
+    if len(ops) == 2:
+        env[ops[1]] = "BB"
+    guards_txt = re.findall(r"if \(([^{};]*?)\) goto InvalidImmediate;", text)
+    if not guards_txt:
+        raise TranslatorError("%s: no immediate guard" % names)
+    # computed variables
+    for m in re.finditer(r"uint32_t (\w+) = ([^;]+);", text):
+        v, e = m.group(1), m.group(2).strip()
+        if v == "op_size":
+            continue
+        mm = re.fullmatch(r"Support::neg\(uint32_t\((\w+)\)\) & \(op_size - 1\)", e)
+        if mm and mm.group(1) in env:
+            env[v] = "BNegAnd %s" % env[mm.group(1)]; continue
+        mm = re.fullmatch(r"uint32_t\((\w+)\) - 1", e)
+        if mm and mm.group(1) in env:
+            env[v] = "BPred %s" % env[mm.group(1)]; continue
+        mm = re.fullmatch(r"uint32_t\((\w+)\)", e)
+        if mm and mm.group(1) in env:
+            env[v] = env[mm.group(1)]; continue
+        mm = re.fullmatch(r"(\w+) \+ uint32_t\((\w+)\) - 1u", e)
+        if mm and mm.group(1) in env and mm.group(2) in env:
+            env[v] = "BAddPred %s %s" % (env[mm.group(1)], env[mm.group(2)]); continue
+        mm = re.fullmatch(r"op_size - 1 - uint32_t\((\w+)\)", e)
+        if mm and mm.group(1) in env:
+            env[v] = "BSizePredMinus %s" % env[mm.group(1)]; continue
+        raise TranslatorError("%s: unrecognised field expression %r" % (names, e))
+
+    def par(x):
+        return x if " " not in x else "(%s)" % x
+    guards = []; post = False
+    r16 = re.findall(r"opcode\.add_imm\((\w+), 16\);", text)
+    r10 = re.findall(r"opcode\.add_imm\((\w+), 10\);", text)
+    r16 = [v for v in r16 if v in env]; r10 = [v for v in r10 if v in env]
+    if len(r16) != 1 or len(r10) != 1:
+        raise TranslatorError("%s: immr/imms placement not found" % names)
+    for k, gt in enumerate(guards_txt):
+        if k == 0:
+            for atom in [a.strip() for a in gt.split("||")]:
+                mm = re.fullmatch(r"(\w+) >= op_size", atom)
+                if mm and mm.group(1) in env:
+                    guards.append("GGeSize %s" % par(env[mm.group(1)])); continue
+                mm = re.fullmatch(r"(\w+) == 0", atom)
+                if mm and mm.group(1) in env:
+                    guards.append("GEqZero %s" % par(env[mm.group(1)])); continue
+                mm = re.fullmatch(r"(\w+) > op_size - (\w+)", atom)
+                if mm and mm.group(1) in env and mm.group(2) in env:
+                    guards.append("GGtSizeMinus %s %s" % (par(env[mm.group(1)]), par(env[mm.group(2)]))); continue
+                mm = re.fullmatch(r"\((\w+) \| (\w+)\) >= op_size", atom)
+                if mm and mm.group(1) in env and mm.group(2) in env:
+                    guards.append("GOrGeSize %s %s" % (par(env[mm.group(1)]), par(env[mm.group(2)]))); continue
+                raise TranslatorError("%s: unrecognised guard %r" % (names, atom))
+        else:
+            mm = re.fullmatch(r"(\w+) >= op_size", gt.strip())
+            if not (mm and mm.group(1) == r10[0]):
+                raise TranslatorError("%s: unrecognised second guard %r" % (names, gt))
+            post = True
+    return "{| br_guards := [%s]; br_immr := %s; br_imms := %s; br_imms_lt_size := %s |}" % (
+        "; ".join(guards), env[r16[0]], env[r10[0]], "true" if post else "false")
+
+
+def extract_bf_rules(repo):
+    """a64assembler.cpp: BaseBfc, BaseBfi, BaseBfm, BaseBfx and the LSL #imm branch of BaseShift as rules (Coq text)."""
+    import c17_transcribed
+    reg = c17_transcribed.extract(repo)
+    out = []
+    for name in ("a64 case BaseBfc", "a64 case BaseBfi", "a64 case BaseBfm", "a64 case BaseBfx"):
+        t = reg[name]["text"]
+        if t is None:
+            raise TranslatorError("%s not found" % name)
+        out.append(_bf_rule(t, name))
+    t = reg["a64 case BaseShift"]["text"]
+    if t is None:
+        raise TranslatorError("a64 case BaseShift not found")
+    i = t.find("uint64_t imm_r = o2.as<Imm>()")
+    m = re.search(r"if \(op_data\.ror == 0\) \{(.*?)goto EmitOp; \}", t[i:])
+    if i < 0 or not m:
+        raise TranslatorError("BaseShift: LSL #imm branch not found")
+    head = t[i:t.index("opcode.reset(op_data.immediate_op())", i)]
+    out.append(_bf_rule(head + " " + m.group(1), "a64 case BaseShift (LSL #imm)"))
+    return out
+
+
+def render(layouts, fixup=None, arm=None, used=None, bf=None):
     def opt(x):
         return "None" if x is None else "Some %d" % x
     rows = []
@@ -191,7 +398,28 @@ def render(layouts):
             "Import ListNotations.\nLocal Open Scope Z_scope.\n\n"
             "Definition gen_layouts : list (otype * layout) :=\n  [\n" + ";\n".join(rows) + "\n  ].\n\n"
             "(* the layouts in the source are the ones the theorems of Codec/LayoutProofs.v are about *)\n"
-            "Lemma gen_layouts_ok : gen_layouts = expected_layouts.\nProof. reflexivity. Qed.\n")
+            "Lemma gen_layouts_ok : gen_layouts = expected_layouts.\nProof. reflexivity. Qed.\n"
+            + ("" if fixup is None else
+               "\n(* asmjit/core/fixup.h: OffsetType enumerators in declaration order; the types has_sign_bit() lists *)\n"
+               "Definition gen_otype_order : list otype := [" + "; ".join(ENUM_NAMES[n] for n in fixup[0]) + "].\n"
+               "Definition gen_sign_types : list otype := [" + "; ".join(ENUM_NAMES[n] for n in fixup[1]) + "].\n"
+               "Lemma gen_fixup_ok : gen_otype_order = expected_otype_order /\\ gen_sign_types = expected_sign_types.\n"
+               "Proof. split; reflexivity. Qed.\n")
+            + ("" if arm is None else
+               "\n(* asmjit/arm/armutils.h: fp imm8 template arguments, is_add_sub_imm and is_byte_mask_imm constants *)\n"
+               "Definition gen_fp_params : list (Z * (Z * Z * Z)) := [" + "; ".join("(%d, (%d, %d, %d))" % t for t in arm[0]) + "].\n"
+               "Definition gen_arm_consts : list Z := [" + "; ".join(str(c) for c in arm[1]) + "].\n"
+               "Lemma gen_armutils_ok : gen_fp_params = expected_fp_params /\\ gen_arm_consts = expected_arm_consts.\n"
+               "Proof. split; reflexivity. Qed.\n")
+            + ("" if used is None else
+               "\n(* every OffsetFormat the backends build (call sites of reset_to_simple_value / reset_to_imm_value in asmjit/) *)\n"
+               "Definition gen_used_formats : list fmt :=\n  [ " + ";\n    ".join(
+                   "{| ty := %s; vsize := %d; bits := %d; shift := %d; discard := %d |}" % u for u in used) + " ].\n"
+               "Lemma gen_used_formats_ok : gen_used_formats = expected_used_formats.\nProof. reflexivity. Qed.\n")
+            + ("" if bf is None else
+               "\n(* asmjit/arm/a64assembler.cpp: operand guards and field expressions of BaseBfc, BaseBfi, BaseBfm, BaseBfx, LSL #imm *)\n"
+               "Definition gen_bf_rules : list bf_rule :=\n  [ " + ";\n    ".join(bf) + " ].\n"
+               "Lemma gen_bf_rules_ok : gen_bf_rules = expected_bf_rules.\nProof. reflexivity. Qed.\n"))
 
 
 def masks(layouts):
@@ -212,7 +440,8 @@ def masks(layouts):
 if __name__ == "__main__":
     import sys
     L, changes = extract(sys.argv[1] if len(sys.argv) > 1 else "/repo")
-    sys.stdout.write(render(L))
+    R = sys.argv[1] if len(sys.argv) > 1 else "/repo"
+    sys.stdout.write(render(L, extract_fixup(R), extract_armutils(R), extract_used_formats(R), extract_bf_rules(R)))
     for c in changes:
         sys.stderr.write("TEXT CHANGED: %r\n" % (c,))
     sys.stderr.write("masks: %s\n" % {k: hex(v) for k, v in masks(L).items()})
